@@ -147,7 +147,7 @@ theorem skip_written_block (c : ColSpec) (hv : c.v2 = false) (hn : c.hasNulls = 
     simp [hall x hx]
   have hlen : (writerLevels c cells).length = skipLen cells.length := by
     rw [skipLen_eq_blockLen]
-    simp only [writerLevels, hn, if_true, writerDefBlock, hv, Bool.false_eq_true, if_false, writerDefBody, hbits,
+    simp only [writerLevels, hn, if_true, writerDefBlock_eq, hv, Bool.false_eq_true, if_false, writerDefBody_eq, hbits,
       List.length_append, leBytes_length, notNullBits_length, List.length_cons, List.length_nil, blockLen,
       PqV.Gen.SkipDef.lenPrefix, PqV.Gen.SkipDef.shift, uvarintLen, Nat.shiftLeft_eq, Nat.pow_one]
     omega
